@@ -36,24 +36,6 @@ theorem as_i64_ok {dbg : Bool} {v : IrValue} {u : I64} (h : IrValue.as_i64 dbg v
   case I32 x => exact ⟨⟨.I32, 32, rfl, rfl, x.bv, jitRepr_I32 x⟩, by rw [RInt.val_cast_i64 (by decide) (by decide)]; simp [RInt.val]⟩
   case I64 x => exact ⟨⟨.I64, 64, rfl, rfl, x.bv, jitRepr_I64 x⟩, by simp [RInt.val]⟩
 
-/-- the generated `PartialEq` succeeds only on equal integer-like tags and compares the JIT's bits. -/
-theorem eq_ok {l r : IrValue} {b : Bool} (h : IrValue.eq false l r = .ok b) :
-    ∃ (ty : CTy) (w : Nat) (_ : ty.bits = w) (_ : ty.isFloat = false) (x y : BitVec w),
-      jitRepr l = some (CVal.ofBv ty x) ∧ jitRepr r = some (CVal.ofBv ty y) ∧ b = (x == y) := by
-  cases l <;> cases r <;> simp [IrValue.eq, REq.eq] at h <;> subst h
-  case Bool.Bool x y =>
-    exact ⟨.I8, 8, rfl, rfl, _, _, by rw [jitRepr_Bool, CVal.ofBool_eq], by rw [jitRepr_Bool, CVal.ofBool_eq],
-      by cases x <;> cases y <;> decide⟩
-  case U8.U8 x y => exact ⟨.I8, 8, rfl, rfl, _, _, jitRepr_U8 x, jitRepr_U8 y, RInt.decide_eq x y⟩
-  case U16.U16 x y => exact ⟨.I16, 16, rfl, rfl, _, _, jitRepr_U16 x, jitRepr_U16 y, RInt.decide_eq x y⟩
-  case U32.U32 x y => exact ⟨.I32, 32, rfl, rfl, _, _, jitRepr_U32 x, jitRepr_U32 y, RInt.decide_eq x y⟩
-  case I8.I8 x y => exact ⟨.I8, 8, rfl, rfl, _, _, jitRepr_I8 x, jitRepr_I8 y, RInt.decide_eq x y⟩
-  case I16.I16 x y => exact ⟨.I16, 16, rfl, rfl, _, _, jitRepr_I16 x, jitRepr_I16 y, RInt.decide_eq x y⟩
-  case I32.I32 x y => exact ⟨.I32, 32, rfl, rfl, _, _, jitRepr_I32 x, jitRepr_I32 y, RInt.decide_eq x y⟩
-  case Asn.Asn x y => exact ⟨.I32, 32, rfl, rfl, _, _, jitRepr_Asn x, jitRepr_Asn y, RInt.decide_eq x y⟩
-  case Pointer.Pointer x y => exact ⟨.I64, 64, rfl, rfl, _, _, jitRepr_Pointer x, jitRepr_Pointer y, RInt.decide_eq x y⟩
-
-
 /-- two integer views of operands whose CLIF types coincide have the same width. -/
 theorem IntView.align {l r : IrValue} (a : IntView l) (b : IntView r) {cl cr : CVal}
     (hl : jitRepr l = some cl) (hr : jitRepr r = some cr) (hty : cl.ty = cr.ty) :
@@ -75,5 +57,59 @@ theorem as_f64_ok {dbg : Bool} {v : IrValue} {a : F64} (h : IrValue.as_f64 dbg v
   case F64 x => exact Or.inr (by rw [h])
 end
 
+/-! ### (round 6) `PartialEq for IrValue`, every tag pair, float arms admitted iff they are IEEE
+
+`eq_ok_general` is the statement the PROPERTY needs about a completed `==` (it replaces the former
+`eq_ok`, which was the pinned tree's table — integer-like tags only, one named case per existing arm —
+and therefore stopped checking when a harmless arm such as `(U64(l), U64(r)) => l == r` was added):
+it compared the bit patterns of two integer-like JIT operands of one type (`icmp eq`), or it compared
+two floats of one type with IEEE equality (`fcmp eq`).  Its proof does not name the arms that exist:
+it closes whatever arm the regenerated definition has with whichever of the admissible justifications
+fits, so adding `U64/I64/Char` arms or an IEEE float arm (`(F64(l), F64(r)) => l == r`) keeps it
+checking, while an arm that completes with anything else (bit equality of floats through
+`to_bits()`, a cross-tag comparison) leaves a goal no justification closes. -/
+section
+variable [F : FloatOps]
+
+/-- what a completed `==` on `IrValue`s is allowed to have computed. -/
+inductive EqView (l r : IrValue) (b : Bool) : Prop
+  | int (ty : CTy) (w : Nat) (hw : ty.bits = w) (hf : ty.isFloat = false) (x y : BitVec w)
+      (hl : jitRepr l = some (CVal.ofBv ty x)) (hr : jitRepr r = some (CVal.ofBv ty y))
+      (hb : b = (x == y))
+  | f32 (x y : F32) (hl : l = .F32 x) (hr : r = .F32 y) (hb : b = F.eq32 x.bits y.bits)
+  | f64 (x y : F64) (hl : l = .F64 x) (hr : r = .F64 y) (hb : b = F.eq64 x.bits y.bits)
+
+omit F in
+theorem bool_decide_eq_bits (x y : Bool) :
+    decide (x = y) = ((if x then 1#8 else 0#8) == (if y then 1#8 else 0#8)) := by
+  cases x <;> cases y <;> decide
+
+theorem eq_ok_general {l r : IrValue} {b : Bool} (h : IrValue.eq false l r = .ok b) : EqView l r b := by
+  cases l <;> cases r <;> simp [IrValue.eq, REq.eq] at h <;> subst h <;>
+  first
+    | exact .int .I8 8 rfl rfl _ _ (by rw [jitRepr_Bool, CVal.ofBool_eq]) (by rw [jitRepr_Bool, CVal.ofBool_eq])
+        (bool_decide_eq_bits _ _)
+    | exact .int .I8 8 rfl rfl _ _ (jitRepr_U8 _) (jitRepr_U8 _) (RInt.decide_eq _ _)
+    | exact .int .I16 16 rfl rfl _ _ (jitRepr_U16 _) (jitRepr_U16 _) (RInt.decide_eq _ _)
+    | exact .int .I32 32 rfl rfl _ _ (jitRepr_U32 _) (jitRepr_U32 _) (RInt.decide_eq _ _)
+    | exact .int .I64 64 rfl rfl _ _ (jitRepr_U64 _) (jitRepr_U64 _) (RInt.decide_eq _ _)
+    | exact .int .I8 8 rfl rfl _ _ (jitRepr_I8 _) (jitRepr_I8 _) (RInt.decide_eq _ _)
+    | exact .int .I16 16 rfl rfl _ _ (jitRepr_I16 _) (jitRepr_I16 _) (RInt.decide_eq _ _)
+    | exact .int .I32 32 rfl rfl _ _ (jitRepr_I32 _) (jitRepr_I32 _) (RInt.decide_eq _ _)
+    | exact .int .I64 64 rfl rfl _ _ (jitRepr_I64 _) (jitRepr_I64 _) (RInt.decide_eq _ _)
+    | exact .int .I32 32 rfl rfl _ _ (jitRepr_Char _) (jitRepr_Char _) (RInt.decide_eq _ _)
+    | exact .int .I32 32 rfl rfl _ _ (jitRepr_Asn _) (jitRepr_Asn _) (RInt.decide_eq _ _)
+    | exact .int .I64 64 rfl rfl _ _ (jitRepr_Pointer _) (jitRepr_Pointer _) (RInt.decide_eq _ _)
+    | exact .f32 _ _ rfl rfl rfl
+    | exact .f64 _ _ rfl rfl rfl
+
+/-- a completed `==` never compared values of two different tags (all 14 x 14 pairs). -/
+theorem eq_ok_same_tag {l r : IrValue} {b : Bool} (h : IrValue.eq false l r = .ok b) :
+    (jitRepr l).map (·.ty) = (jitRepr r).map (·.ty) := by
+  cases eq_ok_general h with
+  | int ty w hw hf x y hl hr hb => rw [hl, hr]; rfl
+  | f32 x y hl hr hb => subst hl hr; rfl
+  | f64 x y hl hr hb => subst hl hr; rfl
+end
 
 end RotoV
